@@ -952,6 +952,47 @@ func (e *Eval) model(fr *frame, x *ssa.Call, callee *ssa.Function, args []AV, st
 		return ret(r)
 	case "net/http.Get":
 		return ret(TupleV{ResV{Kind: "http.Response", A: args[0], Site: x}, e.fallible(x, name, st)})
+	case "flag.String":
+		// a command-line option: the analysis judges the program as run with its defaults
+		if d, ok := args[1].(StrV); ok && d.Kind == skConst {
+			return ret(PtrV{Ext: d})
+		}
+	case "path/filepath.Join", "path.Join":
+		// two clean components: dir + "/" + file
+		if vs, ok := args[0].(SliceV); ok {
+			if vc, ok := st[vs.O].(VecC); ok && len(vc.Elems) == 2 {
+				d, okd := vc.Elems[0].(StrV)
+				f, okf := vc.Elems[1].(StrV)
+				if okd && okf && d.Kind == skConst && d.S != "" && !strings.HasSuffix(d.S, "/") && !strings.Contains(d.S, "..") && !strings.Contains(d.S, "//") && !strings.HasPrefix(d.S, "./") {
+					return ret(StrV{Kind: skConcat, Parts: []AV{d, CStr("/"), f}})
+				}
+			}
+		}
+	case "net/http.NewRequestWithContext", "net/http.NewRequest":
+		// a GET request for a URL (any other method is not a download: unknown)
+		mi, ui := 0, 1
+		if name == "net/http.NewRequestWithContext" {
+			mi, ui = 1, 2
+		}
+		if m, ok := args[mi].(StrV); ok && m.Kind == skConst && (m.S == "GET" || m.S == "") {
+			if _, isNil := args[ui+1].(NilV); isNil {
+				// the cell remembers whether anything but the URL was touched (headers, body, …)
+				o := e.newObj(okCell, x, "http.Request modified")
+				e.setContentFresh(st, o, CellC{KBool(false)})
+				return ret(TupleV{ResV{Kind: "http.Request", A: args[ui], O: o, Site: x}, e.fallible(x, name, st)})
+			}
+		}
+		return ret(TupleV{e.topOf(callee.Signature.Results().At(0).Type(), "request"), e.fallible(x, name, st)})
+	case "(*net/http.Client).Do":
+		if rq, ok := args[1].(ResV); ok && rq.Kind == "http.Request" && rq.O != nil {
+			// only a request that is exactly "GET url" is the download the rules know
+			if c, ok := st[rq.O].(CellC); ok {
+				if b, ok := c.V.(BoolV); ok && b.Known && !b.Val {
+					return ret(TupleV{ResV{Kind: "http.Response", A: rq.A, Site: x}, e.fallible(x, name, st)})
+				}
+			}
+		}
+		return ret(TupleV{e.topOf(callee.Signature.Results().At(0).Type(), "response"), e.fallible(x, name, st)})
 	case "(*net/http.Client).Get":
 		// a client of the program's own (timeouts, transport): the same request for the same URL
 		return ret(TupleV{ResV{Kind: "http.Response", A: args[1], Site: x}, e.fallible(x, name, st)})
@@ -966,8 +1007,45 @@ func (e *Eval) model(fr *frame, x *ssa.Call, callee *ssa.Function, args []AV, st
 		return ret(TupleV{BytesV{Src: "⊤: ReadAll of " + shortAV(args[0])}, e.fallible(x, name, st)})
 	case "os.OpenFile":
 		return ret(TupleV{ResV{Kind: "os.File", A: args[0], Flags: args[1], Site: x}, e.fallible(x, name, st)})
+	case "os.CreateTemp", "io/ioutil.TempFile":
+		return ret(TupleV{ResV{Kind: "os.File", A: TempNameV{Site: x}, Temp: true, Site: x}, e.fallible(x, name, st)})
+	case "(*os.File).Name":
+		if f, ok := args[0].(ResV); ok && f.Kind == "os.File" {
+			return ret(f.A)
+		}
+	case "os.Rename":
+		return ret(e.fallible(x, name, st))
 	case "os.Create":
 		return ret(TupleV{ResV{Kind: "os.File", A: args[0], Site: x}, e.fallible(x, name, st)})
+	case "bytes.NewReader", "strings.NewReader", "bytes.NewBuffer", "bytes.NewBufferString":
+		// an in-memory reader over a known text
+		switch a0 := args[0].(type) {
+		case BytesV:
+			if a0.Str != nil {
+				return ret(ResV{Kind: "mem.Reader", A: a0.Str, Site: x})
+			}
+		case StrV:
+			return ret(ResV{Kind: "mem.Reader", A: a0, Site: x})
+		}
+	case "bufio.NewScanner":
+		if rv, ok := args[0].(ResV); ok && (rv.Kind == "mem.Reader" || rv.Kind == "http.Body") {
+			var text AV = rv.A
+			if rv.Kind == "http.Body" {
+				text = StrV{Kind: skSrc, S: "download", X: rv.A}
+			}
+			o := e.newObj(okCell, x, "scanner splits lines and has not been read from")
+			e.setContentFresh(st, o, CellC{KBool(true)})
+			return ret(ResV{Kind: "bufio.Scanner", A: text, O: o, Site: x})
+		}
+	case "(*bufio.Scanner).Buffer":
+		return ret(TupleV{})
+	case "(*bufio.Scanner).Err":
+		return ret(e.fallible(x, name, st))
+	case "(*bufio.Scanner).Split", "(*bufio.Scanner).Scan", "(*bufio.Scanner).Text", "(*bufio.Scanner).Bytes":
+		// outside the recognised loop: what the scanner yields from here on is not modelled
+		if rv, ok := args[0].(ResV); ok && rv.O != nil {
+			e.setContent(fr, st, rv.O, CellC{KBool(false)})
+		}
 	case "bufio.NewWriter", "bufio.NewWriterSize":
 		o := e.newObj(okCell, x, "bufio.Writer has unflushed data")
 		e.setContentFresh(st, o, CellC{KBool(false)})
@@ -990,6 +1068,16 @@ func (e *Eval) model(fr *frame, x *ssa.Call, callee *ssa.Function, args []AV, st
 		return ret(RangeInt(0, math.MaxInt32))
 	case "os.WriteFile", "io/ioutil.WriteFile":
 		return ret(e.fallible(x, name, st))
+	case "(*os.File).Write":
+		return ret(TupleV{RangeInt(0, math.MaxInt32), e.fallible(x, name, st)})
+	case "go/format.Source":
+		// gofmt of a rendered file: the same tokens, white space changed (trusted); fails if the
+		// rendering is not valid Go
+		if rv, ok := args[0].(RenderedV); ok {
+			rv.Formatted = true
+			return ret(TupleV{rv, e.fallible(x, name, st)})
+		}
+		return ret(TupleV{e.topOf(callee.Signature.Results().At(0).Type(), "formatted source"), e.fallible(x, name, st)})
 	case "(*html/template.Template).Execute", "(*text/template.Template).Execute":
 		if rv, ok := args[1].(ResV); ok && rv.Kind == "bytes.Buffer" && rv.O != nil {
 			if c, ok := st[rv.O].(CellC); ok {
@@ -1045,6 +1133,9 @@ func (e *Eval) model(fr *frame, x *ssa.Call, callee *ssa.Function, args []AV, st
 			e.escape(fr, st, a, "passed to "+name)
 			if rv, ok := a.(ResV); ok && rv.Kind == "bytes.Buffer" && rv.O != nil {
 				e.setContent(fr, st, rv.O, CellC{CStr("other")})
+			}
+			if rv, ok := a.(ResV); ok && rv.Kind == "http.Request" && rv.O != nil {
+				e.setContent(fr, st, rv.O, CellC{KBool(true)})
 			}
 		}
 	}
